@@ -3476,7 +3476,17 @@ class LazyStackedTensorDict(TensorDictBase):
             s for i, s in enumerate(self.batch_size) if i < start_dim or i > end_dim
         ]
         new_shape.insert(start_dim, -1)
-        return self.view(new_shape)
+        out = self.view(new_shape)
+        if self._has_names() and out is not self:
+            # view() re-cuts the dims and does not know which ones were merged: the
+            # dims outside [start_dim, end_dim] keep their names
+            names = list(self.names)
+            names = names[:start_dim] + [None] + names[end_dim + 1 :]
+            # (erase first: the setter refuses a name that is still in use elsewhere)
+            out.names = None
+            if any(name is not None for name in names):
+                out.names = names
+        return out
 
     def unflatten(self, dim, unflattened_size):
         dim = _maybe_correct_neg_dim(dim, shape=self.batch_size)
@@ -3487,7 +3497,21 @@ class LazyStackedTensorDict(TensorDictBase):
             new_shape = (
                 new_shape[:dim] + torch.Size(unflattened_size) + new_shape[dim + 1 :]
             )
-        return self.view(new_shape)
+        out = self.view(new_shape)
+        if self._has_names() and out is not self:
+            # the dims other than `dim` keep their names, the first of the new dims
+            # inherits the name of `dim` (as for a plain TensorDict)
+            names = list(self.names)
+            names = (
+                names[:dim]
+                + [None] * (len(unflattened_size) - 1)
+                + names[dim:]
+            )
+            # (erase first: the setter refuses a name that is still in use elsewhere)
+            out.names = None
+            if any(name is not None for name in names):
+                out.names = names
+        return out
 
     def _transpose(self, dim0, dim1):
         if self._is_vmapped:
